@@ -283,7 +283,7 @@ func TestCheck(t *testing.T) {
 	vk.Main(t, vk.Spec{
 		Prop:  "C09",
 		Level: "model_checking",
-		Rule: "explicit-state BFS over histories (edit / snapshot on either of two real sync-tree replicas, flush the network, lose the network) with canonical-state dedup; for every ordered (responder, requester) pair of every state x 4 requester-heads variants (real heads+path, empty request, unknown heads, partly known heads) x every batch limit (1, smallest change, every partial sum of stored sizes +-1, total, 10 MiB) the responder's real loader output is judged and (for the real-heads and empty variants) fed batch by batch to the real requester; " +
+		Rule: "explicit-state BFS over histories (edit / snapshot on either of two real sync-tree replicas, flush the network, lose the network) with canonical-state dedup; for every ordered (responder, requester) pair of every state x 4 requester-heads variants (real heads+path, empty request, unknown heads, partly known heads) plus requesters that stopped at an earlier point (either replica as it was after each proper prefix of the history, distinct states, smallest and largest limit) x every batch limit (1, smallest change, every partial sum of stored sizes +-1, total, 10 MiB) the responder's real loader output is judged and (for the real-heads and empty variants) fed batch by batch to the real requester; " +
 			"states = distinct world states; transitions = (pair, variant, limit) evaluations; distinct_nontrivial = evaluations with >= 2 batches or with a responder reduced to a later snapshot",
 		Assumptions: []string{
 			"replica pairs come from honest participation of one account on two devices; storage = in-memory implementation of the storage interfaces (see C01)",
@@ -292,7 +292,7 @@ func TestCheck(t *testing.T) {
 		Shards: func(string) int { return 16 },
 		Budget: func(tier string) time.Duration {
 			if tier == "quick" {
-				return 90 * time.Second
+				return 150 * time.Second
 			}
 			return 25 * time.Minute
 		},
@@ -436,9 +436,56 @@ func evaluateState(c *vk.Ctx, f *treesim.Fixture, h []event) (multiBatch, reduce
 				reduced += rd
 			}
 		}
+		// requesters that synced earlier and were away since: either replica as it was after a proper prefix of the
+		// history (distinct states only), asking with the heads and snapshot path it had then
+		seenPast := map[string]bool{}
+		for _, cur := range w.Replicas {
+			seenPast[replicaSig(cur)] = true
+		}
+		lims := limitsFor(rStored)
+		if len(lims) > 2 {
+			lims = []int{lims[0], lims[len(lims)-1]}
+		}
+		for k := 0; k < len(h); k++ {
+			wp := build(f, c.Scratch, h[:k])
+			for j := 0; j < 2; j++ {
+				sig := replicaSig(wp.Replicas[j])
+				if seenPast[sig] {
+					continue
+				}
+				seenPast[sig] = true
+				for _, limit := range lims {
+					if c.TimeUp() {
+						wp.Close()
+						c.NotExhaustive("deadline inside a state's evaluations")
+						return
+					}
+					mb, rd := evaluate(c, f, h, ri, fmt.Sprintf("past:%d:%d", k, j), limit)
+					multiBatch += mb
+					reduced += rd
+				}
+			}
+			wp.Close()
+		}
 	}
 	_ = rootId
 	return
+}
+
+// replicaSig identifies what a replica holds and announces.
+func replicaSig(q *treesim.Replica) string {
+	q.Tree.Lock()
+	heads := append([]string{}, q.Tree.Heads()...)
+	path, _ := q.Tree.SnapshotPath()
+	q.Tree.Unlock()
+	st, _ := storedOf(q)
+	var ids []string
+	for _, x := range st {
+		ids = append(ids, x.id)
+	}
+	sort.Strings(ids)
+	sort.Strings(heads)
+	return strings.Join(heads, ",") + "|" + strings.Join(path, ",") + "|" + strings.Join(ids, ",")
 }
 
 func evaluate(c *vk.Ctx, f *treesim.Fixture, h []event, ri int, variantName string, limit int) (multiBatch, reduced int) {
@@ -447,13 +494,27 @@ func evaluate(c *vk.Ctx, f *treesim.Fixture, h []event, ri int, variantName stri
 	c.Count("executions", 1)
 	c.Count("transitions", 1)
 	r, q := w.Replicas[ri], w.Replicas[1-ri]
+	past := strings.HasPrefix(variantName, "past:")
+	if past {
+		var k, j int
+		if _, err := fmt.Sscanf(variantName, "past:%d:%d", &k, &j); err != nil || k > len(h) {
+			c.Broken("bad variant %q", variantName)
+			return
+		}
+		wq := build(f, c.Scratch, h[:k])
+		defer wq.Close()
+		q = wq.Replicas[j]
+	}
 	rStored, rBy := storedOf(r)
 	_, qBy := storedOf(q)
 	var v variant
 	for _, x := range variants(q) {
-		if x.Name == variantName {
+		if x.Name == variantName || past && x.Name == "requester-heads" {
 			v = x
 		}
+	}
+	if past {
+		v.Name = "past-requester"
 	}
 	rep := map[string]any{"history": h, "responder": ri, "variant": variantName, "limit": limit}
 	where := fmt.Sprintf("after [%s], responder r%d, %s, limit %d", histStr(h), ri, variantName, limit)
@@ -490,7 +551,7 @@ func evaluate(c *vk.Ctx, f *treesim.Fixture, h []event, ri int, variantName stri
 		c.Sample(map[string]any{"history": histStr(h), "responder": ri, "variant": variantName, "limit": limit, "batches": ids})
 	}
 	// feed the batches in order to the real requester
-	if variantName == "requester-heads" {
+	if variantName == "requester-heads" || past {
 		ctx := peer.CtxWithPeerId(context.Background(), r.PeerId)
 		for bi, b := range bs {
 			resp := &response.Response{SpaceId: f.SpaceId, ObjectId: f.TreeRoot.Id, Heads: b.heads, SnapshotPath: b.path, Changes: b.raws, Root: b.root}
@@ -510,7 +571,7 @@ func evaluate(c *vk.Ctx, f *treesim.Fixture, h []event, ri int, variantName stri
 			c.Violation("requester-still-lacks-changes", fmt.Sprintf("%s: after applying all %d batches the requester still lacks %v", where, len(bs), shortIds(lacking)), rep)
 		}
 		// the messages the real request handler sends (fixed 1 MiB batches) must carry the same changes
-		if limit == 10<<20 {
+		if limit == 10<<20 && !past {
 			w2 := build(f, c.Scratch, h)
 			defer w2.Close()
 			if err := w2.SyncWithPeer(1-ri, ri); err == nil && len(w2.Net) == 1 {
